@@ -5,6 +5,7 @@ class attribute).  Each tabulated index map is additionally applied to a second,
 required to equal "input indexed by the table" - that the function *is* an index map is checked,
 not assumed.  The file is rewritten only when its text changes (keeps lake builds incremental).
 """
+import re
 import contextlib
 import io
 
@@ -211,18 +212,36 @@ def tabulate():
         T['mat2arrEng'] = [(x.numerator, x.denominator) for x in sm]
 
     with _Sec(FAILED, 'res'):
-        # C02: header constants of FrontISTRData._split_series, read from its source with ast
-        import ast as _ast, inspect as _inspect, textwrap as _tw
-        _src = _ast.parse(_tw.dedent(_inspect.getsource(fistr_mod.FrontISTRData._split_series)))
-        _if = next(n for n in _ast.walk(_src) if isinstance(n, _ast.If) and 'find_match' in _ast.dump(n.test))
-        _marker = next(n.value for n in _ast.walk(_if.test) if isinstance(n, _ast.Constant) and isinstance(n.value, str))
-        _cmp = next(n for n in _ast.walk(_if.test) if isinstance(n, _ast.Compare))
-        assert isinstance(_cmp.ops[0], _ast.Eq) and _cmp.comparators[0].value == 0, '_split_series: layout test changed shape'
+        # C02: header constants of FrontISTRData._split_series, tabulated from its behaviour on probe files: how
+        # many leading lines are dropped without / with the version-2 marker in the header.  The marker itself is
+        # found among the string constants of the module's source (any syntactic shape): the one whose presence in
+        # a header line changes the number of dropped lines.
+        import ast as _ast, inspect as _inspect
+        from femio.util import string_parser as _st
+        _d = fistr_mod.FrontISTRData()
 
-        def _const(body):
-            a = next(n for n in body if isinstance(n, _ast.Assign) and n.targets[0].id == 'content_start')
-            return int(a.value.value)
-        T['resSkipOld'], T['resSkipV2'], T['resMarker'] = _const(_if.body), _const(_if.orelse), _marker
+        def _skip(hdr):
+            lines = [f"{k}.0E+00" for k in range(60)]
+            lines[50] = 'NAME'
+            if hdr is not None:
+                lines[1] = hdr
+            n, _e = quiet(_d._split_series, _st.StringSeries(lines))
+            return int(float(list(n)[0]))
+        _old = _skip(None)
+        _cands = sorted({n.value for n in _ast.walk(_ast.parse(_inspect.getsource(fistr_mod)))
+                         if isinstance(n, _ast.Constant) and isinstance(n.value, str)
+                         and re.fullmatch(r'[A-Za-z_*!]{3,40}', n.value)})
+        _hits = []
+        for c in _cands:
+            try:
+                k = _skip(c)
+            except Exception:
+                continue
+            if k != _old:
+                _hits.append((c, k))
+        assert len(_hits) == 1, f'_split_series: version marker not identified uniquely: {_hits}'
+        assert _skip('xx' + _hits[0][0] + 'yy') == _hits[0][1], '_split_series: marker is not searched anywhere in the line'
+        T['resSkipOld'], T['resSkipV2'], T['resMarker'] = _old, _hits[0][1], _hits[0][0]
 
     with _Sec(FAILED, 'lru'):
         sizes = {}
